@@ -6,6 +6,7 @@ import (
 	"fmt"
 	"sync"
 	"testing"
+	"time"
 
 	goat "github.com/avos-io/goat"
 	"pgregory.net/rapid"
@@ -360,13 +361,15 @@ func TestC05(t *testing.T) { checkProp(t, "C05", "random", genC05, execC05) }
 // ---- id allocation ----------------------------------------------------------
 
 type C05IDs struct {
-	Burst  int  `json:"burst"`  // callers started in the same scheduler step
-	Rounds int  `json:"rounds"` // bursts on the same connection
-	Mix    bool `json:"mix"`    // mix unary calls and streams
+	Burst  int  `json:"burst"`          // callers started in the same scheduler step
+	Rounds int  `json:"rounds"`         // bursts on the same connection
+	Mix    bool `json:"mix"`            // mix unary calls and streams
+	Spin   int  `json:"spin,omitempty"` // >0: callers leave the id-allocation point in groups of this size at the same instant (spin barrier at the hook point)
+	Slow   bool `json:"slow,omitempty"` // unary handlers stay busy until the whole burst has arrived and 20ms have passed
 }
 
 func genC05IDs(t *rapid.T) C05IDs {
-	return C05IDs{Burst: rapid.SampledFrom([]int{2, 8, 32, 64, 64}).Draw(t, "burst"), Rounds: rapid.IntRange(1, 4).Draw(t, "rounds"), Mix: rapid.Bool().Draw(t, "mix")}
+	return C05IDs{Burst: rapid.SampledFrom([]int{2, 8, 32, 64, 64}).Draw(t, "burst"), Rounds: rapid.IntRange(1, 4).Draw(t, "rounds"), Mix: rapid.Bool().Draw(t, "mix"), Slow: rapid.Bool().Draw(t, "slow"), Spin: rapid.SampledFrom([]int{0, 2, 4, 8}).Draw(t, "spin")}
 }
 
 func execC05IDs(t *testing.T, c C05IDs) (v Verdict) {
@@ -375,7 +378,17 @@ func execC05IDs(t *testing.T, c C05IDs) (v Verdict) {
 	var mu sync.Mutex
 	res := kit.Bubble(t, func() {
 		svc := kit.NewSvc()
-		svc.Unary("u", func(ctx context.Context, req []byte) ([]byte, error) { return req, nil })
+		var release chan struct{}
+		var rmu sync.Mutex
+		svc.Unary("u", func(ctx context.Context, req []byte) ([]byte, error) {
+			rmu.Lock()
+			rel := release
+			rmu.Unlock()
+			if rel != nil {
+				<-rel
+			}
+			return req, nil
+		})
 		svc.Stream("s", true, true, func(s grpcServerStream) error {
 			b, err := kit.RecvBytes(s)
 			if err != nil {
@@ -385,7 +398,16 @@ func execC05IDs(t *testing.T, c C05IDs) (v Verdict) {
 		})
 		w := kit.NewWorld(kit.Topo{Kind: "direct", Clients: 1}, svc, nil, nil)
 		for r := 0; r < c.Rounds; r++ {
+			if c.Spin > 0 {
+				defer spinBarrier([]string{"mux.unary.beforeRegister", "mux.stream.beforeRegister"}, c.Burst, c.Spin)()
+			}
 			start := make(chan struct{})
+			rel := make(chan struct{})
+			if c.Slow {
+				rmu.Lock()
+				release = rel
+				rmu.Unlock()
+			}
 			var wg sync.WaitGroup
 			for i := 0; i < c.Burst; i++ {
 				i := i
@@ -418,6 +440,13 @@ func execC05IDs(t *testing.T, c C05IDs) (v Verdict) {
 			}
 			kit.Settle()
 			close(start) // all callers leave the gate in the same step
+			if c.Slow {
+				// every unary worker is busy while the rest of the burst arrives, and time passes
+				kit.Settle()
+				time.Sleep(20 * time.Millisecond)
+				kit.Settle()
+				close(rel)
+			}
 			wg.Wait()
 		}
 		tap = w.Tap.Snapshot()
@@ -448,7 +477,7 @@ func execC05IDs(t *testing.T, c C05IDs) (v Verdict) {
 	if len(opens) != total {
 		v.failf("%d distinct ids on the wire for %d calls", len(opens), total)
 	}
-	v.Info = kit.CaseInfo{Labels: []string{fmt.Sprintf("burst=%d", c.Burst), fmt.Sprintf("mix=%v", c.Mix)}, NonTrivial: c.Burst >= 8, Key: fmt.Sprintf("%+v", c), Sample: c}
+	v.Info = kit.CaseInfo{Labels: []string{fmt.Sprintf("burst=%d", c.Burst), fmt.Sprintf("mix=%v", c.Mix), fmt.Sprintf("slow_handlers=%v", c.Slow), fmt.Sprintf("spin_barrier=%v", c.Spin > 0)}, NonTrivial: c.Burst >= 8, Key: fmt.Sprintf("%+v", c), Sample: c}
 	return
 }
 
